@@ -183,7 +183,7 @@ def fixed_programs():
     EXU = "http://example.org/"
     for walker in (["Unified", "0"], ["Flattened", "0"], ["ToGraph", "0"], ["DocFromRecords", ["b", "0", "0"]]):
         out.append([["NewDoc"], ["AddNs", ["d", "0"], "ex", EXU], ["NewBundle", "0", ["S", "ex:b"]],
-                    ["NewRecord", ["b", "0", "0"], "Entity", ["S", "ex:e"], [[["S", "ex:k"], ["qn", "ex", EXU, "v1"]]]],
+                    ["NewRecord", ["b", "0", "0"], "Entity", ["S", "ex:e"], [[["S", "ex:k"], ["str", "v1"]]]],    # (names as strings only: they resolve through the document, the bundle registers nothing)
                     ["NewRecord", ["b", "0", "0"], "Entity", ["S", "ex:e"], [[["S", "ex:k2"], ["int", "2"]]]],
                     ["NewRecord", ["d", "0"], "Agent", ["Q", "", D1, "ag"], []], ["NewRecord", ["d", "0"], "Agent", ["Q", "", D1, "ag"], [[["S", "ex:k"], ["int", "1"]]]],
                     walker, walker])
